@@ -16,9 +16,10 @@ Definition rf_empty : rfile := mkRF [] 0.
 Inductive fop :=
 | Write (d : list N)              (* f.write(d) *)
 | WriteBad                        (* f.write(<the other string type>) *)
-| Read (n : option nat)           (* f.read() / f.read(n) *)
-| ReadLine (lim : option nat)     (* f.readline() / f.readline(lim) *)
-| ReadLines (hint : nat)          (* f.readlines(hint), 0 = default *)
+| Read (n : option nat)           (* f.read(n); None = "to the end": f.read(), f.read(None), f.read(k) for ANY k < 0;
+                                     a size larger than what is left, however huge, reads what is left *)
+| ReadLine (lim : option nat)     (* f.readline(lim); None = no limit: omitted, None or any negative size *)
+| ReadLines (hint : nat)          (* f.readlines(hint); 0 = no hint: omitted, None, 0 or any negative size *)
 | Next                            (* next(f) *)
 | ListAll                         (* list(f) *)
 | IterAll                         (* [x for x in f] *)
@@ -154,7 +155,7 @@ Fixpoint ref_final (f : rfile) (ops : list fop) : rfile :=
 
 (* ---- MultiFileReader: the reference is ONE file holding the concatenation - *)
 Inductive mop :=
-| MRead (amt : option nat)     (* m.read() / m.read(amt) *)
+| MRead (amt : option nat)     (* m.read(amt); None = everything left: m.read(), m.read(None), m.read(k) for any k < 0 *)
 | MSeek0.                      (* m.seek(0) *)
 
 (* every call is inside: read(0) returns nothing (as a file), read() / read(None) everything *)
